@@ -41,3 +41,18 @@ Theorem C09_fmt_lattice : forall k : Z, (0 <= k <= 100000000000)%Z ->
   /\ fmt 0 (Coq.Floats.PrimFloat.div (fz k) 1e6%float) = canon_of k.
 Proof. exact fmt_lattice. Qed.
 Print Assumptions C09_fmt_lattice.
+
+(* negative instants (the property's range is +/- 1e5 s), and the round trip through times(units) *)
+From Verif Require Import Proofs.FloatTimeNeg Proofs.FloatTimeRoundTrip.
+Theorem C09_fmt_lattice_signed : forall k : Z, (-100000000000 <= k <= 100000000000)%Z ->
+  fmt 2 (fzs k) = canon_s k
+  /\ fmt 1 (Coq.Floats.PrimFloat.div (fzs k) 1e3%float) = canon_s k
+  /\ fmt 0 (Coq.Floats.PrimFloat.div (fzs k) 1e6%float) = canon_s k.
+Proof. exact fmt_lattice_signed. Qed.
+Print Assumptions C09_fmt_lattice_signed.
+
+(* a stored lattice instant exported with times(units) and re-imported with the same unit is the same double *)
+Theorem C09_unit_roundtrip : forall k : Z, (-100000000000 <= k <= 100000000000)%Z ->
+  fmt 2 (ret 2 (canon_s k)) = canon_s k /\ fmt 1 (ret 1 (canon_s k)) = canon_s k /\ fmt 0 (ret 0 (canon_s k)) = canon_s k.
+Proof. exact unit_roundtrip_signed. Qed.
+Print Assumptions C09_unit_roundtrip.
